@@ -16,11 +16,16 @@ BASE_TRUSTED = [
 
 
 def load_known():
-    try:
-        with open(KNOWN_FILE) as f:
-            return {e["id"]: e for e in json.load(f)["findings"]}
-    except FileNotFoundError:
-        return {}
+    """known_findings.json: {"findings": [{id, property, status: known|fixed, signature, description, commit?}]}"""
+    res = {}
+    for path in [KNOWN_FILE] + sorted(glob.glob(os.path.join(VERIF, "known_findings.d", "*.json"))):
+        try:
+            with open(path) as f:
+                for e in json.load(f)["findings"]:
+                    res[e["id"]] = e
+        except FileNotFoundError:
+            pass
+    return res
 
 
 def getopt(spec, name, default):
